@@ -136,6 +136,9 @@ pub fn install_panic_hook() {
             // not inside a guarded library call: a bug of the harness itself
             println!("[dsiverif] HARNESS PANIC (inconclusive, not a violation): {} @ {}", msg, loc);
         }
+        if std::thread::panicking() && std::env::var_os("VERIF_TRACE_PANICS").is_some() {
+            eprintln!("[dsiverif] panic: {} @ {}", msg, loc);
+        }
         LAST_PANIC.with(|p| *p.borrow_mut() = format!("{} @ {}", msg, loc));
     }));
 }
